@@ -289,10 +289,10 @@ class OrderedMultiDict(dict):
         :meth:`dict.update` for more details.
         """
         # E and F are throwback names to the dict() __doc__
-        if E is self:
-            return
         self_add = self.add
-        if isinstance(E, OrderedMultiDict):
+        if E is self:
+            pass
+        elif isinstance(E, OrderedMultiDict):
             for k in E:
                 if k in self:
                     del self[k]
